@@ -47,24 +47,37 @@ def r1_projections(ctx):
     edges = [_edge(A, "0", B, kw="x"), _edge(A, "0", C, ps=0), _edge(B, "1", C, kw="y"), _edge(A, "1", C, kw="z"), _edge(A, "2", "E", kw="w")]
     fd = repo.func(f"{VW}.dependants")
     ctx.analysed(fd.qual)
-    ps = Interp(repo).explore(fd, args={"edges": list(edges)})
-    ctx.evals(len(ps))
     want = {dsid(A, "0"): {B, C}, dsid(B, "1"): {C}, dsid(A, "1"): {C}, dsid(A, "2"): {"E"}}
-    got = _as_plain(ps[0].exit[1]) if len(ps) == 1 and ps[0].exit[0] == "return" else None
-    if got is None or {k: set(v) for k, v in got.items() if v} != want:
-        ctx.violation("C16.R1", fd.qual, loc(fd), "consumers per dataset", f"edges A.0->B, A.0->C, B.1->C, A.1->C: dependants = {vkey(got)[:160]}, expected {vkey(want)}")
-    else:
-        ctx.ok("C16.R1", loc(fd), "dependants: every edge adds its sink to its source dataset's consumers")
+    # the edge list is a set in disguise: every listing order of the same edges must give the same maps
+    nperm = bad = 0
+    for perm in itertools.permutations(edges):
+        ps = Interp(repo).explore(fd, args={"edges": list(perm)})
+        ctx.evals(len(ps))
+        nperm += 1
+        got = _as_plain(ps[0].exit[1]) if len(ps) == 1 and ps[0].exit[0] == "return" and isinstance(ps[0].exit[1], dict) else None
+        if got is None or {k: set(v) for k, v in got.items() if v} != want:
+            order = ", ".join(f"{vkey(e.fields['source'])}->{e.fields['sink_task']}" for e in perm)
+            ctx.violation("C16.R1", fd.qual, loc(fd), "consumers per dataset", f"edges listed as {order}: dependants = {vkey(got)[:160]}, expected {vkey(want)}")
+            bad += 1
+            break
+    if not bad:
+        ctx.ok("C16.R1", loc(fd), f"dependants: every edge adds its sink to its source dataset's consumers (all {nperm} listing orders of the model edges)")
+    ctx.floor("C16.R1.orders", nperm, 120 if not bad else 1)
     fp = repo.func(f"{VW}.param_source")
     ctx.analysed(fp.qual)
-    ps = Interp(repo).explore(fp, args={"edges": list(edges)})
-    ctx.evals(len(ps))
     want = {B: {"x": dsid(A, "0")}, C: {0: dsid(A, "0"), "y": dsid(B, "1"), "z": dsid(A, "1")}, "E": {"w": dsid(A, "2")}}
-    got = _as_plain(ps[0].exit[1]) if len(ps) == 1 and ps[0].exit[0] == "return" else None
-    if got is None or {k: dict(v) for k, v in got.items()} != want:
-        ctx.violation("C16.R1", fp.qual, loc(fp), "inputs per task", f"edges A.0->B[x], A.0->C[0], B.1->C[y]: param_source = {vkey(got)[:200]}, expected {vkey(want)}")
-    else:
-        ctx.ok("C16.R1", loc(fp), "param_source: every edge recorded under its sink task and its keyword / position")
+    bad = 0
+    for perm in itertools.permutations(edges):
+        ps = Interp(repo).explore(fp, args={"edges": list(perm)})
+        ctx.evals(len(ps))
+        got = _as_plain(ps[0].exit[1]) if len(ps) == 1 and ps[0].exit[0] == "return" and isinstance(ps[0].exit[1], dict) else None
+        if got is None or {k: dict(v) for k, v in got.items()} != want:
+            order = ", ".join(f"{vkey(e.fields['source'])}->{e.fields['sink_task']}" for e in perm)
+            ctx.violation("C16.R1", fp.qual, loc(fp), "inputs per task", f"edges listed as {order}: param_source = {vkey(got)[:200]}, expected {vkey(want)}")
+            bad += 1
+            break
+    if not bad:
+        ctx.ok("C16.R1", loc(fp), "param_source: every edge recorded under its sink task and its keyword / position (all listing orders)")
     for label, e in (("both keyword and position", _edge(A, "0", B, kw="x", ps=0)), ("neither keyword nor position", _edge(A, "0", B))):
         ps = Interp(repo).explore(fp, args={"edges": [e]})
         if any(p.exit[0] != "raise" for p in ps):
@@ -342,7 +355,7 @@ def r4b_ncd_compiled_path(ctx):
 RULES.append(r4b_ncd_compiled_path)
 
 
-def r5_enrich_small_scope(ctx):
+def r5_enrich_small_scope(ctx, rid="C16.R5", scale=None):
     """C16.R5: `enrich` on every weakly connected DAG with up to four tasks (one topological order per shape; task names are opaque to the
     code): depth = number of layers (longest path + 1), value(v) = depth - distance from v to its nearest sink, distance matrix = nearest
     common descendant by the definition, sources / nodes as given.  Bounded scope, stated as such: larger components are not decided."""
@@ -384,8 +397,8 @@ def r5_enrich_small_scope(ctx):
             want_value = {v: L - min(d[v][s] for s in sinks if d[v][s] < INF) for v in nodes}
             want_dist = {a: {b: (0 if a == b else min([max(d[a][c], d[b][c]) for c in nodes if d[a][c] < INF and d[b][c] < INF] + [L])) for b in nodes} for a in nodes}
             sources = [v for v in nodes if not ei[v]]
-            ps = [p for p in Interp(repo, max_concrete_iter=80, max_while=12, inline={f"{GR}.nearest_common_descendant"}).explore(
-                fi, args={"plain_component": (list(nodes), list(sources)), "edge_i": {k: set(v) for k, v in ei.items()}, "edge_o": {k: set(v) for k, v in eo.items()}})
+            ps = [p for p in Interp(repo, max_concrete_iter=80, max_while=12, inline={f"{GR}.nearest_common_descendant"}, scale_ints=scale).explore(
+                fi, defaults=True, args={"plain_component": (list(nodes), list(sources)), "edge_i": {k: set(v) for k, v in ei.items()}, "edge_o": {k: set(v) for k, v in eo.items()}})
                 if not any(dd.key.startswith("import_fails") and not dd.value for dd in p.decisions)]
             ctx.evals(len(ps))
             n += 1
@@ -408,15 +421,31 @@ def r5_enrich_small_scope(ctx):
                 problems.append(f"nodes/sources {f_.get('nodes')}/{f_.get('sources')}")
             if problems:
                 bad += 1
-                ctx.violation("C16.R5", fi.qual, loc(fi), "component summary of a small DAG", f"component with edges {edges or '(single task)'}: enrich gives " + "; ".join(problems))
+                ctx.violation(rid, fi.qual, loc(fi), "component summary of a small DAG" + (f" (numeric thresholds lowered to {scale[1]})" if scale else ""), (f"with every integer constant above {scale[2]} in the summary code lowered to {scale[1]} (a size threshold shows its effect inside the explored scope): " if scale else "") + f"component with edges {edges or '(single task)'}: enrich gives " + "; ".join(problems))
                 break
         if bad:
             break
     if undecided:
-        ctx.undecided("C16.R5", loc(fi), f"{undecided} of {n} small DAGs: enrich is not a single completed path returning a ComponentCore")
+        ctx.undecided(rid, loc(fi), f"{undecided} of {n} small DAGs: enrich is not a single completed path returning a ComponentCore")
     elif not bad:
-        ctx.ok("C16.R5", loc(fi), f"enrich == definitions (depth, value, distances, sources) on all {n} weakly connected DAGs with up to four tasks")
-    ctx.floor("C16.R5.dags", n, 40)
+        ctx.ok(rid, loc(fi), (f"[thresholds -> {scale[1]}] " if scale else "") + f"enrich == definitions (depth, value, distances, sources) on all {n} weakly connected DAGs with up to four tasks")
+    ctx.floor(rid + ".dags", n, 40)
 
 
 RULES.append(r5_enrich_small_scope)
+
+
+SCALE_MODULES = frozenset({"cascade.scheduler.graph", "cascade.low.views", "cascade.scheduler.core"})
+
+
+def r6_scaled_thresholds(ctx):
+    """C16.R6: the small-scope rules explore components of up to four tasks; they say nothing about a behaviour that only starts beyond a
+    numeric threshold written in the code (a horizon, a cut-off, a "large component" switch).  Every integer constant above the scope in
+    the summary modules — literal or module-level name, including parameter defaults — is therefore lowered to 1, 2 and 3 in turn and the
+    enrich obligations are decided again: a threshold that merely selects between equivalent computations stays silent, one that truncates
+    or approximates shows its effect on a small DAG."""
+    for k in (1, 2, 3):
+        r5_enrich_small_scope(ctx, rid="C16.R6", scale=(SCALE_MODULES, k, 4))
+
+
+RULES.append(r6_scaled_thresholds)
